@@ -57,6 +57,10 @@ class ApplyDelayZoh(Unit):
         d = mn + alpha * (mx - mn)
         seq, sent, recv0, data = inp.f["seq"].a, inp.f["ts_sent"].a, inp.f["ts_recv"].a, inp.f["data"].a
         recv = lambda k: z3.If(z3.Select(seq, k) < 0, z3.Select(recv0, k), z3.Select(sent, k) + d)   # arrival under the delay d
+        for nm, t in (("C", C), ("Wd", Wd), ("ts_start", ts_start), ("alpha", alpha), ("mn", mn), ("mx", mx)):
+            ctx.probe(nm, t)
+        for i in range(NPROBE):
+            ctx.probe(f"seq{i}", z3.Select(seq, i)); ctx.probe(f"sent{i}", z3.Select(sent, i)); ctx.probe(f"recv{i}", z3.Select(recv0, i))
         ret = ctx.call(self_obj=D, args=[z3.Real("rate_out"), inp, ts_start])
         if ret is inp:
             ctx.ensure("no window extension (Wd = 0): the input state is returned as is", Wd == 0)
@@ -84,6 +88,29 @@ class ApplyDelayZoh(Unit):
         ctx.ensure("the trainable distribution travels with the input (so the delay stays adjustable)", z3.BoolVal(r["delay_dist"] is D))
 
 
+NPROBE = 8
+
+
+def _num(s):
+    from fractions import Fraction
+    s = str(s).replace("?", "")
+    return float(Fraction(s)) if "/" in s else float(s)
+
+
+def _replay_zoh(self, label, clause, probes, model):
+    """the counter-model as an explicit case of bounded/c10_zoh.py (only when the whole extended window fits the probed prefix)"""
+    try:
+        C, Wd = int(_num(probes["C"])), int(_num(probes["Wd"]))
+    except Exception:
+        return None
+    if not (1 <= C <= NPROBE and 0 < Wd < C):
+        return None
+    case = dict(mode="explicit", W=C - Wd, ts_start=_num(probes["ts_start"]), alpha=_num(probes["alpha"]), mn=_num(probes["mn"]), mx=_num(probes["mx"]),
+                seq=[int(_num(probes[f"seq{i}"])) for i in range(C)], ts_sent=[_num(probes[f"sent{i}"]) for i in range(C)], ts_recv=[_num(probes[f"recv{i}"]) for i in range(C)])
+    return {"kind": "bounded_case", "script": "c10_zoh.py", "case": case}
+
+
+ApplyDelayZoh.replay = _replay_zoh
 DistAlgebra.replay = lambda self, label, clause, probes, model: {"kind": "pure", "which": "trainable_dist", "probes": probes}
 
 
@@ -99,7 +126,21 @@ def check(tier, seed):
     extra = dict(EXTRA)
     extra["explanation"] = ("library model differential (spot check of the trusted base, not a proof): the assumed contracts of clip / where / roll / take / dynamic_slice / argwhere / searchsorted / flip / "
                             ".at[].set / floor-division / round(.,6) / interp / max / min / int / ceil evaluated on random concrete inputs against the real numpy / jax functions: " + str({k: v for k, v in md.items() if k != "first_disagreements"}))
+    n = 60 if tier == "quick" else 600
+    res = bounded.run_native("c10_zoh.py", ["--n", str(n), "--seed", str(seed)])
+    lines, ev, err = bounded.report("C10", "trainable delay d vs a graph recorded with static delay d (function level)", res, "c10_zoh.py")
+    extra["bounded"] = [dict(ev, bound=f"{n} random (rate, min, max, alpha, window, step time, sender jitter) cases incl. ties and episode starts: the real apply_delay (zoh) on the extended window of a graph generated with the minimal delay "
+                                       "must hand the step exactly the messages a static delay d would (last `window` with ts_sent + d <= ts_start)")]
+    for l in ev.get("known_finding_lines", []):
+        print(l)
     code = check_property("C10", UNITS, tier, seed, extra=extra)
+    if lines:
+        for l in lines:
+            print(l)
+        return 1
+    if err and code == 0:
+        print(f"ERROR property=C10 bounded stand-in failed to run: {err[-300:]}")
+        return 3
     if md.get("error") or md.get("disagreements"):
         print(f"ERROR property=C10 library model differential: {md}")
         return 3 if code == 0 else code
